@@ -764,7 +764,7 @@ Proof.
     destruct (convert_bytes _ _ _ _ _ _ _ Hs Ec) as [-> _].
     cbn [with_reset rg_name rg_size_bits rg_byte_order rg_reset].
     rewrite bos_register_name, Es, Hbo. repeat split; try reflexivity.
-    intros rv' Hrv'. inversion Hrv'; subst. reflexivity.
+    intros rv' Hrv'. inversion Hrv'; subst. exact Ec.
   - inversion H; subst x. rewrite bos_register_name, Es, Hbo, Er, Erv. repeat split; try reflexivity.
     intros rv' Hrv'. discriminate.
 Qed.
